@@ -81,6 +81,19 @@ def retry_obligations(ctx, repo, rule):
            f"{BASE}.retry queues {[(type(s[0]).__name__, s[1:]) for s in m.sends]}: not (this handler, its last destination)", loc)
     ctx.ob(rule, f"{BASE}.retry::restarts-timeout", ages[0] == 0,
            f"{BASE}.retry at clock 100 leaves age {ages[0]!r}: the timeout is not restarted, the handler would retry again on every engine pass", loc)
+    # the budget is spent for good: datagrams handled in between (segments of a damaged multi-segment reply pass through
+    # handled() before the transfer asks for a resend) do not buy resends back
+    m3 = Model(repo, budget=N)
+    got = []
+    for i in range(N + 2):
+        try:
+            m3.call("handled", ("10.0.0.1", 10022))
+            got.append(m3.call("retry", m3.sock))
+        except PyRaise as e:
+            got.append(f"raises {e.what}")
+    ctx.ob(rule, f"{BASE}.retry::budget-not-refilled-by-replies", got == [True] * N + [False, False] and len(m3.sends) == N,
+           f"{BASE} with a budget of {N}: handled() followed by retry(), {N + 2} times, gives {got} and {len(m3.sends)} resend(s): a reply that is handled refills the retry budget, "
+           f"so a transfer whose every attempt delivers a damaged segment chain is re-requested without bound", repo.method(BASE, "handled").loc)
     # without a socket (async use) the budget is still counted
     m2 = Model(repo, budget=1)
     r = [m2.call("retry", None), m2.call("retry", None)]
